@@ -131,7 +131,7 @@ def step (reg : Registry) (toks : List String) : Option (Registry × String) :=
   | ["greg.ymd", y, m, d] => do
     let y ← parseInt? y; let m ← parseInt? m; let d ← parseInt? d
     let n := daysFromCivil y m d
-    some (reg, s!"{n} {yearOfDays n} {dayOfWeek n} {daysInMonth y m} {showBool (isLeap y)}")
+    some (reg, s!"{n} {showR toString (yearOfDays n)} {dayOfWeek n} {daysInMonth y m} {showBool (isLeap y)}")
   | ["rule.occ", mode, month, dom, dow, adv, tod, addd, year] => do
     let l ← parseInts? [mode, month, dom, dow, adv, tod, addd, year]
     match l with
